@@ -19,6 +19,7 @@ LEVELS = {
     "HA": dict(candlestick_type="HA"),
     "lifespan": dict(candles_lifespan=timedelta(minutes=3)),
     "fill": dict(timeframe_fill=True),        # Hexital-level fill, members bring their own timeframe; the stream has a hole
+    "tf-nested": dict(timeframe="T2"),        # Hexital collapses to T2 and a member asks for T4 on top: its twin is the standalone T4 indicator on the raw stream
 }
 
 
@@ -29,14 +30,18 @@ def obligations(tier):
         heavy = name in HEAVY
         forms = FORMS if (tier == "thorough" or not heavy) else (FORMS[idx % 3],)
         for form in forms:
-            levels = list(LEVELS) if tier == "thorough" else (["plain", list(LEVELS)[1 + idx % 5]] if not heavy else ["plain"])
+            levels = [l for l in LEVELS if l != "tf-nested"] if tier == "thorough" else (["plain", list(LEVELS)[1 + idx % 5]] if not heavy else ["plain"])
+            if not heavy and form == "object" and w <= (2 if tier == "quick" else 3) and name not in ("VWAP", "VWMA", "ATR"):   # (volume products over merged buckets: solver-bound)
+                levels.append("tf-nested")
             for level in levels:
                 n = w + (2 if heavy else 3) + (1 if tier == "thorough" else 0)
                 if name == "ADX" and tier == "quick":
                     n = w + 1
                 if LEVELS[level].get("timeframe"):
                     n = min(2 * n, n + 4)
-                obs.append(Ob(f"{spec_name((kind, name, kw))}/{form}/{level}/n={n}", dict(spec=[kind, name, kw], form=form, level=level, n=n, mtf=(None if (heavy and tier == "quick") else [None, "T2", "T3"][idx % 3])), CFG,
+                if level == "tf-nested":
+                    n = 4 * (w + 2) + 1
+                obs.append(Ob(f"{spec_name((kind, name, kw))}/{form}/{level}/n={n}", dict(spec=[kind, name, kw], form=form, level=level, n=n, mtf=(None if (heavy and tier == "quick") else [None, "T2", "T3", None, "t2", "T3"][idx % 6])), CFG,
                               weight=n * (10 if heavy else 1), budget_s=900 if tier == "quick" else 7200, max_paths=100000))
     return obs
 
@@ -87,6 +92,8 @@ def run(ctx, P):
     base = [dict(ts=ctx.sec_of(c.timestamp), open=c.open, high=c.high, low=c.low, close=c.close, volume=c.volume) for c in cs]
     # members: the indicator under test (no own timeframe), a partner on its own timeframe, and the same class again on a timeframe
     mtf = P.get("mtf") if not level.get("timeframe") else None
+    if P["level"] == "tf-nested":
+        mtf = "T4"
     if P["level"] == "fill" and mtf is None:
         mtf = "T3"
     members = [(spec, {}), (("ind", "WMA", dict(period=4)), dict(timeframe="T2") if not level.get("timeframe") else {})]
